@@ -302,6 +302,27 @@ def job_params_trans(ss):
                 mt = symtf.resolve_bindings(m.t if isinstance(m, SymReal) else term_of(m))
                 ss.prove("params_trans.get_error_matrix[%d,%d]" % (r, q), F, far(simp(F, mt), symtf.resolve_bindings(quad(Js[r], Js[q]).t), 0), key="params_trans.get_error_matrix", payload=pay, timeout=90, ackermann=False,
                          describe="get_error_matrix = J V J^T")
+        # error matrix of a vector-valued quantity
+        try:
+            Mv = pt.get_error_matrix(yv, keep=True)
+            Mv = np.asarray(getattr(Mv, "arr", Mv), dtype=object)
+            shape_ok = Mv.shape == (2, 2)
+        except Exception as e:
+            Mv, shape_ok = None, False
+            ss._rec(kind="obligation", name="params_trans.get_error_matrix_vector.raises", key="params_trans.get_error_matrix_vector", status="sat", raised="%s: %s" % (type(e).__name__, str(e)[:200]), seconds=0.0,
+                    payload=dict(kind="params_trans_vector", expect_raise=True))
+        if Mv is not None:
+            ss.concrete("params_trans.get_error_matrix_vector.shape", shape_ok, key="params_trans.get_error_matrix_vector", payload=dict(kind="params_trans_vector"), describe="2 x 2 covariance for a 2-vector")
+            if shape_ok:
+                for r in range(2):
+                    for q in range(2):
+                        m = Mv[r, q]
+                        if hasattr(m, "arr"):
+                            m = m.arr.reshape(-1)[0]
+                        mt = symtf.resolve_bindings(m.t if isinstance(m, SymReal) else term_of(m))
+                        ss.prove("params_trans.get_error_matrix_vector[%d,%d]" % (r, q), F, far(simp(F, mt), symtf.resolve_bindings(quad(Jv[r], Jv[q]).t), 0), key="params_trans.get_error_matrix_vector",
+                                 payload=lambda mod: dict(kind="params_trans_vector", model={k: float(v) for k, v in mod.items() if not k.startswith(("sqrt#", "uf_", "V!"))}), timeout=90, ackermann=False, presample=10,
+                                 describe="get_error_matrix of a vector-valued quantity = J V J^T")
         e0 = simp(F, symtf.resolve_bindings(term_of(pt.get_error(ys["poly"], keep=True).arr.reshape(-1)[0])))
         ss.mutant("params_trans.mutant_no_covariance", F, far(T.mul(e0, e0), (B * B * V[0, 0] + A * A * V[1, 1] + Fv * Fv * V[2, 2]).t, 0))
     finally:
